@@ -107,10 +107,21 @@ impl<F: Fn(pipe::SimplexDirection, usize) + Send + Sync> LeftPipe<F> {
             },
         );
 
-        self.shared
+        if let Err(e) = self
+            .shared
             .forwarder_shared
             .on_new_udp_connection(meta)
-            .await?;
+            .await
+        {
+            // no outbound socket, no connection: forget it, or the next datagram of this pair
+            // would be written to a forwarder which does not know it
+            self.shared
+                .udp_connections
+                .lock()
+                .unwrap()
+                .remove(&forwarder::UdpDatagramMeta::from(meta));
+            return Err(e);
+        }
 
         if let Some(c) = self
             .shared
